@@ -2,7 +2,7 @@
    Statements only; proofs in proofs/AbftSeal.v AbftProcess.v (AbftSealWitness.v for the example). *)
 From Coq Require Import NArith List.
 From LV Require Import model.VecIndex model.Abft model.AbftRun spec.AbftSpec
-  proofs.AbftSeal proofs.AbftProcess proofs.AbftRunInv proofs.AbftSealWitness.
+  proofs.AbftSeal proofs.AbftProcess proofs.AbftRunInv proofs.AbftSealVals proofs.AbftSealWitness.
 Import ListNotations.
 Local Open Scope N_scope.
 
@@ -33,6 +33,15 @@ Theorem C09_process_blocks : forall cap end_block es st e r bl st',
   elinv st -> process cap end_block es st e = (r, bl, st') -> call_post st bl st'.
 Proof. exact process_frames. Qed.
 
+(* audit-F: ... and when the call seals, the sealing block is the LAST block, the validator set of the
+   resulting state is exactly the set EndBlock returned for it, the epoch is the old one plus one, and no
+   frame is decided, no root, confirmed mark, index entry or cached answer of the old epoch survives *)
+Theorem C09_sealing_call : forall cap eb es st e r bl st', elinv st -> process cap eb es st e = (r, bl, st') ->
+  sealed_last bl = true ->
+  exists pre b nv, bl = pre ++ [b] /\ b_seal b = Some nv /\ l_vals st' = nv /\ l_epoch st' = l_epoch st + 1 /\
+                   l_ldf st' = 0 /\ l_roots st' = [] /\ l_conf st' = [] /\ l_fcc st' = [] /\ l_idx st' = init (length nv).
+Proof. exact process_seal_vals. Qed.
+
 (* the invariant [elinv] (election decides frame LastDecidedFrame+1) holds initially, after Reset, and is
    re-established by every call (it is part of call_post) *)
 Theorem C09_elinv_genesis_reset : forall ep v st, elinv (genesis ep v) /\ elinv (reset st ep v).
@@ -56,5 +65,6 @@ Print Assumptions C09_seal_is_reset.
 Print Assumptions C09_reset_state.
 Print Assumptions C09_reset_equivalence.
 Print Assumptions C09_process_blocks.
+Print Assumptions C09_sealing_call.
 Print Assumptions C09_elinv_genesis_reset.
 Print Assumptions C09_invariants_hold_on_every_run.
